@@ -6,7 +6,7 @@ import os, array
 META = dict(
     level='exploration', engine='E5 simulated ranks around the real user_trigger module',
     technique='runtime monitoring: the (sender, receiver) pairs produced by the real parsec_termdet_signal_termination through an '
-              'interposed send_am are recorded for every communicator size N<=64 (thorough: N<=384) with every root and for sampled '
+              'interposed send_am are recorded for every communicator size N<=64 (thorough: N<=512) with every root and for sampled '
               'N up to 4096, notifications delivered in random order incl. late-ready/unregistered ranks and ranks holding pending '
               'actions; receivers and callbacks compared with the exactly-once oracle; ASan+UBSan',
     text='For each (N, root) executed, the receivers of the termination notification were exactly all other ranks, each once, all '
@@ -36,7 +36,7 @@ def run(ctx):
     S = ctx.seed * 7919
     jobs = []   # (flavour, args)
     if thorough:
-        for lo, hi in ((1, 160), (161, 220), (221, 262), (263, 296), (297, 324), (325, 348), (349, 368), (369, 384)):
+        for lo, hi in ((1, 224), (225, 282), (283, 323), (324, 355), (356, 383), (384, 407), (408, 428), (429, 448), (449, 466), (467, 482), (483, 498), (499, 512)):
             jobs.append(('rel', ['--nlo', lo, '--nhi', hi, '--reps', 1, '--seed', S + lo]))
         jobs.append(('rel', ['--nlo', 1, '--nhi', 64, '--reps', 4, '--seed', S + 3]))
         jobs.append(('asan', ['--nlo', 1, '--nhi', 96, '--reps', 1, '--seed', S + 5]))
@@ -44,7 +44,7 @@ def run(ctx):
             jobs.append(('rel', ['--sampled', 250, '--roots', 16, '--seed', S + 100 + i]))
         for i in range(2):
             jobs.append(('asan', ['--sampled', 60, '--roots', 16, '--seed', S + 200 + i]))
-        box = 384
+        box = 512
     else:
         jobs.append(('rel', ['--nlo', 1, '--nhi', 64, '--reps', 2, '--seed', S + 1]))
         jobs.append(('asan', ['--nlo', 1, '--nhi', 64, '--reps', 1, '--seed', S + 2]))
